@@ -57,13 +57,14 @@ impl Val {
 
 /// owner of everything the YInput cells of one call point to
 #[derive(Default)]
-pub struct Arena { strs: Vec<CString>, bufs: Vec<Vec<u8>>, cells: Vec<Vec<y::YInput>>, keys: Vec<Vec<*mut c_char>>, pub built: u64 }
+pub struct Arena { strs: Vec<CString>, bufs: Vec<Vec<u8>>, cells: Vec<Vec<y::YInput>>, keys: Vec<Vec<*mut c_char>>, pub built: u64, pub by: std::collections::BTreeMap<&'static str, u64> }
 impl Arena {
     pub fn cstr(&mut self, s: &str) -> *mut c_char { let c = CString::new(s).expect("no NUL in generated strings"); let p = c.as_ptr() as *mut c_char; self.strs.push(c); p }
     fn cells(&mut self, mut v: Vec<y::YInput>) -> *mut y::YInput { let p = v.as_mut_ptr(); self.cells.push(v); p }
     fn keyv(&mut self, mut v: Vec<*mut c_char>) -> *mut *mut c_char { let p = v.as_mut_ptr(); self.keys.push(v); p }
+    fn bump(&mut self, k: &'static str) { self.built += 1; *self.by.entry(k).or_insert(0) += 1; }
     pub unsafe fn j(&mut self, j: &J) -> y::YInput {
-        self.built += 1;
+        self.bump(match j { J::Null => "yinput_null", J::Undef => "yinput_undefined", J::Bool(_) => "yinput_bool", J::Num(_) => "yinput_float", J::Int(_) => "yinput_long", J::Str(_) => "yinput_string", J::Raw(_) => "yinput_json", J::Buf(_) => "yinput_binary", J::Arr(_) => "yinput_json_array", J::Map(_) => "yinput_json_map" });
         match j {
             J::Null => y::yinput_null(), J::Undef => y::yinput_undefined(), J::Bool(b) => y::yinput_bool(if *b { y::Y_TRUE } else { y::Y_FALSE }),
             J::Num(f) => y::yinput_float(*f), J::Int(i) => y::yinput_long(*i),
@@ -81,16 +82,16 @@ impl Arena {
     pub unsafe fn val(&mut self, v: &Val) -> y::YInput {
         match v {
             Val::J(j) => self.j(j),
-            Val::YArr(vs) => { self.built += 1; let cs: Vec<y::YInput> = vs.iter().map(|x| self.val(x)).collect(); let n = cs.len() as u32; let p = self.cells(cs); y::yinput_yarray(p, n) }
+            Val::YArr(vs) => { self.bump("yinput_yarray"); let cs: Vec<y::YInput> = vs.iter().map(|x| self.val(x)).collect(); let n = cs.len() as u32; let p = self.cells(cs); y::yinput_yarray(p, n) }
             Val::YMap(m) => {
-                self.built += 1;
+                self.bump("yinput_ymap");
                 let ks: Vec<*mut c_char> = m.iter().map(|(k, _)| self.cstr(k)).collect();
                 let cs: Vec<y::YInput> = m.iter().map(|(_, x)| self.val(x)).collect();
                 let n = cs.len() as u32; let kp = self.keyv(ks); let p = self.cells(cs); y::yinput_ymap(kp, p, n)
             }
-            Val::YText(s) => { self.built += 1; let p = self.cstr(s); y::yinput_ytext(p) }
-            Val::YXmlElem(s) => { self.built += 1; let p = self.cstr(s); y::yinput_yxmlelem(p) }
-            Val::YXmlText(s) => { self.built += 1; let p = self.cstr(s); y::yinput_yxmltext(p) }
+            Val::YText(s) => { self.bump("yinput_ytext"); let p = self.cstr(s); y::yinput_ytext(p) }
+            Val::YXmlElem(s) => { self.bump("yinput_yxmlelem"); let p = self.cstr(s); y::yinput_yxmlelem(p) }
+            Val::YXmlText(s) => { self.bump("yinput_yxmltext"); let p = self.cstr(s); y::yinput_yxmltext(p) }
         }
     }
     /// a contiguous array of cells (for yarray_insert_range)
